@@ -319,7 +319,7 @@ pub fn generate(rng: &mut Rng, tier: Tier) -> Scenario {
                 Tier::Thorough => rng.range(66_000, 400_000),
             } as u64;
             let fault = if rng.chance(0.4) && !fault_free { Some(*rng.pick(&VALUE_FAULTS)) } else { None };
-            ops.push(Op::Gen { n: 0, g: World::random_desc(rng), skip: 0, len, fault, every: if fault.is_some() { rng.range(2, 3000) as u64 } else { 0 }, reset_every: 0 });
+            ops.push(Op::Gen { n: 0, g: World::random_desc(rng), skip: 0, len, fault, every: if fault.is_some() { rng.range(2, 3000) as u64 } else { 0 }, reset_every: 0, clone_every: 0 });
         }
         // history up to the checkpoint, biased to the interesting window phases
         let k1 = match rng.below(8) {
